@@ -162,6 +162,8 @@ class ParsersWorld:
             if ro.random() < 0.12:
                 # the caller scribbles over the result it got (it owns it): later calls must not be affected
                 op["scribble"] = True
+            if ro.random() < 0.08:
+                op["in_handler"] = True
             if r < 0.27:
                 op["dump"] = {"dump_path": ro.choice(["schemas", "out/d", "."]),
                               "file_path": ro.choice([None, "some/dir/tables.sql", "a.b.sql"])}
@@ -198,7 +200,7 @@ class ParsersWorld:
                                            "dump_fault_fired": 0, "reruns": 0, "mode_changes": 0,
                                            "after_fault_checks": 0, "stmts": 0, "cancel_in_multi": 0,
                                            "objects": 0, "exc_outcomes": 0, "refs_other_hashseed": 0,
-                                           "global_state_changed": 0, "victims_run": 0, "nodump_with_paths": 0, "from_file_other_process": 0, "results_scribbled": 0, "reflag_objects": 0, "followup_objects": 0,
+                                           "global_state_changed": 0, "victims_run": 0, "nodump_with_paths": 0, "from_file_other_process": 0, "results_scribbled": 0, "runs_inside_handler": 0, "reflag_objects": 0, "followup_objects": 0,
                                            "marathon_runs": 1 if (trace.get("swarm") or {}).get("marathon") else 0},
               "kinds": []}
         chooser = sched.ListChooser([])
@@ -355,7 +357,16 @@ class ParsersWorld:
                     seams.install_file_seams()
                     seams.HOOKS.io = plan
                 try:
-                    r = obj.run(**kw)
+                    if op.get("in_handler"):
+                        # the caller is in the middle of handling an unrelated error (the usual strict-then-lenient
+                        # fallback): sys.exc_info() is not empty while run() executes
+                        try:
+                            raise RuntimeError("caller is handling an error")
+                        except RuntimeError:
+                            r = obj.run(**kw)
+                        stats["runs_inside_handler"] += 1
+                    else:
+                        r = obj.run(**kw)
                     outcome = ["ok", core.canon(r)]
                     held.append([i, r, core.digest_of(core.canon(r))])
                 except sched.SimCancel:
@@ -403,8 +414,10 @@ class ParsersWorld:
                     expected_x = ["exc"] + list(expected_x[1:])      # same normalisation as applied to `expected` above
                 stats["refs_other_hashseed"] += 1
                 if expected_x != expected:
-                    st["violations"].append({"oracle": "hashseed_dependent", "op_index": i, "op": kind,
-                                             "hashseeds": [os.environ.get("PYTHONHASHSEED"), str(self.ref_x.hashseed)],
+                    st["violations"].append({"oracle": "other_environment_differs", "op_index": i, "op": kind,
+                                             "environments": [{"PYTHONHASHSEED": os.environ.get("PYTHONHASHSEED")},
+                                                              dict(reference.OTHER_ENV, PYTHONHASHSEED=str(self.ref_x.hashseed),
+                                                                   python_O=bool(self.ref_x.optimize))],
                                              "expected": core.short(expected, 600), "observed": core.short(expected_x, 600),
                                              "diff": core.first_diff(expected, expected_x)})
             if kind == "run" and op.get("scribble") and held and held[-1][0] == i and not st["violations"]:
@@ -459,7 +472,7 @@ class ParsersWorld:
         rv = core.stream(int(trace.get("seed") or 0), "victims:%d" % i)
         c = core.corpus()
         idxs = [n for n in range(len(c)) if len(c[n]["ddl"]) <= 6000]
-        for idx in rv.sample(idxs, min(len(idxs), 48)):
+        for idx in rv.sample(idxs, min(len(idxs), 96)):
             it = c[idx]
             stats["victims_run"] += 1
             try:
@@ -565,6 +578,16 @@ class ParsersWorld:
             elif ro.random() < 0.12:
                 # the object is constructed by ANOTHER thread (the one that starts the workers) and only run here
                 task["ctor_elsewhere"] = True
+            if ro.random() < 0.08:
+                task["in_handler"] = True
+            if not task.get("via_file") and ro.random() < 0.1:
+                # dumps into the shared default folder of the process ("schemas" under the working directory); only the
+                # returned value is compared
+                for kw in task["runs"]:
+                    kw["dump"] = True
+                    if ro.random() < 0.5:
+                        kw["file_path"] = "in/%s.sql" % ro.choice(["t", "t", "u"])
+                task["dumps"] = True
             if ro.random() < 0.2:
                 # a second object built and run later in the same thread
                 c2 = ro.random()
@@ -588,6 +611,13 @@ class ParsersWorld:
                 if len(runs) == 1:
                     runs.append(dict(runs[0]))
             tasks.append(task)
+        for t in tasks:
+            if t.get("via_file"):
+                # parse_from_file supplies file_path itself; the file entry point is compared without dumping here
+                for kw in t["runs"]:
+                    for key in ("dump", "file_path", "dump_path"):
+                        kw.pop(key, None)
+                t.pop("dumps", None)
         arm = rs.random()
         if arm > (0.7 if gran == "L" else 0.85):
             # every object renders in the SAME dialect and is its first user in the process: overlapping first uses of
@@ -716,7 +746,13 @@ class ParsersWorld:
                         S.yield_point("run_entry")
                         running["n"] += 1
                         try:
-                            r = p.run(**kw)
+                            if ospec.get("in_handler"):
+                                try:
+                                    raise RuntimeError("caller is handling an error")
+                                except RuntimeError:
+                                    r = p.run(**kw)
+                            else:
+                                r = p.run(**kw)
                             out = ["ok", core.canon(r)]
                         except sched.SimCancel:
                             out = ["cancelled"]
@@ -814,6 +850,7 @@ class ParsersWorld:
                             "marathon_runs": 1 if swarm.get("marathon") else 0, "gran_" + gran: 1,
                             "same_text_tasks": sum(1 for t in trace["tasks"] if (t.get("src") or "").endswith("+same")),
                             "via_file_tasks": sum(1 for t in trace["tasks"] if t.get("via_file")),
+                            "dumping_tasks": sum(1 for t in trace["tasks"] if t.get("dumps")),
                             "followup_tasks": sum(1 for t in trace["tasks"] if (t.get("src") or "").startswith("gen:followup"))})
         if gran == "L":
             st["stats"]["focus_" + str(swarm.get("focus"))] = 1
@@ -866,7 +903,8 @@ class ParsersWorld:
                "dkey": core.digest_of([st["kinds"], srcs if trace.get("prop") == "C14" else []])[:16],
                "digest": log.digest(), "ops_digest": log.ops_digest(), "stats": st["stats"],
                "kinds": st["kinds"], "trace": trace, "nevents": log.seq,
-               "ref_hashseed": self.ref_x.hashseed if self.ref_x is not None else None}
+               "ref_hashseed": self.ref_x.hashseed if self.ref_x is not None else None,
+               "ref_optimize": bool(self.ref_x.optimize) if self.ref_x is not None else None}
         if log.events is not None:
             res["events"] = log.events
         if extra:
